@@ -17,6 +17,7 @@ mod engines {
 	pub mod tomlorder;
 	pub mod msgpack;
 	pub mod stream;
+	pub mod translate;
 }
 mod props {
 	pub mod c01;
@@ -136,6 +137,8 @@ fn real_main() {
 			}
 			"C09" => {
 				engines::input::run(&mut out, &mut rng.fork(), thorough);
+				// translate(None) as a whole: detection on one handle, then the selected module.
+				engines::translate::run(&mut out, &mut rng.fork(), thorough);
 				props::c09::run(&mut out, &mut rng.fork(), thorough);
 			}
 			"C05" => {
